@@ -422,10 +422,31 @@ func decorate(b *wire.MsgBlock, xr *rand.Rand, dense bool, force []string) [][]b
 		}
 		b.Transactions[0].AddTxOut(wire.NewTxOut(0, exoticScript(xr, kind)))
 	}
+	dupPrev := false
 	for _, k := range force {
-		if strings.HasPrefix(k, "cb-") {
+		switch {
+		case k == "dup": // the same script twice in one transaction
+			s := randScript(xr, 0)
+			nonCb[0].AddTxOut(wire.NewTxOut(5, s))
+			nonCb[0].AddTxOut(wire.NewTxOut(6, s))
+		case k == "dupx": // the same script in two transactions (coinbase and another)
+			s := randScript(xr, 1)
+			b.Transactions[0].AddTxOut(wire.NewTxOut(0, s))
+			nonCb[len(nonCb)-1].AddTxOut(wire.NewTxOut(5, s))
+			nonCb[0].AddTxOut(wire.NewTxOut(6, s))
+		case k == "dupmix": // repeated script next to empty and repeated OP_RETURN scripts
+			s := randScript(xr, 0)
+			o := randScript(xr, 2)
+			nonCb[0].AddTxOut(wire.NewTxOut(5, s))
+			nonCb[0].AddTxOut(wire.NewTxOut(0, o))
+			nonCb[0].AddTxOut(wire.NewTxOut(0, []byte{}))
+			nonCb[0].AddTxOut(wire.NewTxOut(7, s))
+			nonCb[0].AddTxOut(wire.NewTxOut(0, o))
+		case k == "dupprev": // an output pays the script of an output the block spends
+			dupPrev = true
+		case strings.HasPrefix(k, "cb-"):
 			b.Transactions[0].AddTxOut(wire.NewTxOut(0, exoticScript(xr, k[3:])))
-		} else if !strings.HasPrefix(k, "wit-") {
+		case !strings.HasPrefix(k, "wit-"):
 			nonCb[0].AddTxOut(wire.NewTxOut(5, exoticScript(xr, k)))
 		}
 	}
@@ -444,6 +465,29 @@ func decorate(b *wire.MsgBlock, xr *rand.Rand, dense bool, force []string) [][]b
 			if p := witnessInput(xr, nonCb[0].TxIn[0], k[4:]); len(p) > 0 {
 				prevs = append(prevs, p)
 			}
+		}
+	}
+	if dupPrev {
+		if p := witnessInput(xr, nonCb[0].TxIn[0], "wpkh"); len(p) > 0 {
+			prevs = append(prevs, p)
+			nonCb[0].AddTxOut(wire.NewTxOut(8, p))
+			nonCb[0].AddTxOut(wire.NewTxOut(9, p))
+		}
+	}
+	// now and then a block pays a script it already pays (a filter holds
+	// every script once)
+	if len(nonCb) > 0 && xr.Intn(100) < 12 {
+		var cands [][]byte
+		for _, tx := range b.Transactions {
+			for _, o := range tx.TxOut {
+				if len(o.PkScript) > 0 && o.PkScript[0] != 0x6a {
+					cands = append(cands, o.PkScript)
+				}
+			}
+		}
+		if len(cands) > 0 {
+			s := cands[xr.Intn(len(cands))]
+			nonCb[xr.Intn(len(nonCb))].AddTxOut(wire.NewTxOut(int64(1+xr.Intn(50)), s))
 		}
 	}
 	return prevs
@@ -570,6 +614,18 @@ func without(l [][]byte, i int) [][]byte {
 	return append(out, l[i+1:]...)
 }
 
+// withoutScript removes every occurrence of a script (a filter is a set of
+// scripts: omitting one means omitting all its occurrences).
+func withoutScript(l [][]byte, s []byte) [][]byte {
+	var out [][]byte
+	for _, x := range l {
+		if string(x) != string(s) {
+			out = append(out, x)
+		}
+	}
+	return out
+}
+
 func (ch *chainT) doctored(kind string, h int, salt int) *gcs.Filter {
 	return doctoredB(kind, ch.blocks[h], ch.prevs[h], ch.filters[h], salt)
 }
@@ -590,22 +646,19 @@ func doctoredB(kind string, b *wire.MsgBlock, prevs [][]byte, truth *gcs.Filter,
 	case fTrue:
 		return truth
 	case fOmit:
-		must = without(must, salt%len(must))
+		drop := must[salt%len(must)]
+		must, cb, prevs = withoutScript(must, drop), withoutScript(cb, drop), withoutScript(prevs, drop)
 		extra = append(extra, []byte{byte(salt), 7, 7})
 	case fOmitX:
 		drop := ss.exotic[salt%len(ss.exotic)]
-		for i, s := range must {
-			if string(s) == string(drop) {
-				must = without(must, i)
-				break
-			}
-		}
+		must, cb, prevs = withoutScript(must, drop), withoutScript(cb, drop), withoutScript(prevs, drop)
 		extra = append(extra, []byte{byte(salt), 7, 7})
 	case fOmitCb:
 		if len(cb) == 0 {
 			extra = append(extra, []byte{byte(salt), 9, 9, 9})
 		} else {
-			cb = without(cb, salt%len(cb))
+			drop := cb[salt%len(cb)]
+			must, cb, prevs = withoutScript(must, drop), withoutScript(cb, drop), withoutScript(prevs, drop)
 			extra = append(extra, []byte{byte(salt), 7, 7})
 		}
 	case fOmitPrev:
